@@ -28,6 +28,10 @@ type c01Params struct {
 func c01Scenario(c *Ctx, p c01Params) Sched {
 	cfg := env.BasicConfig(config.CacheConfig{})
 	cfgKey := "basic"
+	if p.Prologue == "hfp-in-period" {
+		cfg = env.BasicConfig(config.CacheConfig{HitForPass: "1s"})
+		cfgKey = "c01hfp1s"
+	}
 	if strings.HasPrefix(p.Prologue, "store-") {
 		cfg = env.BasicConfig(config.CacheConfig{Store: "fault://c01"})
 		cfgKey = "c01store"
@@ -66,6 +70,12 @@ func c01Scenario(c *Ctx, p c01Params) Sched {
 				e.Do(env.Req{URI: "/k1", Rid: "pro"})
 				freshCaches(cfg)
 				vtime.Add(int64(p.T) + 1)
+			case "hfp-in-period":
+				// a 1 s hit-for-pass marker in its last valid second: requests arriving now pass, a +1 tick ends the period
+				mode = "uncacheable"
+				e.Do(env.Req{URI: "/k1", Rid: "pro"})
+				mode = "cacheable"
+				vtime.Add(1)
 			case "expired-hfp":
 				mode = "uncacheable"
 				e.Do(env.Req{URI: "/k1", Rid: "pro"})
@@ -102,9 +112,16 @@ func c01Scenario(c *Ctx, p c01Params) Sched {
 				if v := an.selfCheck(); v != nil {
 					return v
 				}
-				// M1: never two origin calls for one key in flight at once
+				// M1: never two origin calls for one key in flight at once (passes of a hit-for-pass period are
+				// independent by definition: only the calls of requests labelled fetching count there)
+				isFetch := func(cl *callIv) bool {
+					return p.Prologue != "hfp-in-period" || an.Reqs[cl.Call.Rid].Res.XStatus == "fetching"
+				}
 				for i, a := range an.Calls {
 					for _, b := range an.Calls[i+1:] {
+						if !isFetch(a) || !isFetch(b) {
+							continue
+						}
 						if keyOf(a.Call.Method, a.Call.Host, a.Call.Path, a.Call.RawQuery) != keyOf(b.Call.Method, b.Call.Host, b.Call.Path, b.Call.RawQuery) {
 							continue
 						}
@@ -117,7 +134,7 @@ func c01Scenario(c *Ctx, p c01Params) Sched {
 				elapsed := x.Clock - start
 				n := 0
 				for _, cl := range an.Calls {
-					if cl.Call.Path == "/k1" {
+					if cl.Call.Path == "/k1" && isFetch(cl) {
 						n++
 					}
 				}
@@ -136,7 +153,7 @@ func c01Scenario(c *Ctx, p c01Params) Sched {
 					if r.Status != 200 {
 						return &vsched.Violation{Sig: fmt.Sprintf("status-%d", r.Status), Msg: fmt.Sprintf("request %s answered %d %q", rid, r.Status, trunc(r.Body))}
 					}
-					if r.XStatus != "hit" && r.XStatus != "fetching" {
+					if r.XStatus != "hit" && r.XStatus != "fetching" && !(p.Prologue == "hfp-in-period" && r.XStatus == "hitForPass") {
 						return &vsched.Violation{Sig: "label-" + r.XStatus, Msg: fmt.Sprintf("request %s labelled %s although every origin answer is cacheable", rid, r.XStatus)}
 					}
 				}
@@ -156,6 +173,7 @@ func init() {
 			{Name: "burst2x2-other", Threads: 2, Reqs: 2, Other: true, T: 1, Bounds: vsched.Bounds{Preempt: 2, Tick: 1, Data: -1, Total: 2}},
 			{Name: "burst3-expired-hit", Threads: 3, Reqs: 1, T: 1, Prologue: "expired-hit", Bounds: vsched.Bounds{Preempt: 2, Tick: 1, Data: -1, Total: 2}},
 			{Name: "burst3-expired-hfp", Threads: 3, Reqs: 1, T: 1, Prologue: "expired-hfp", Bounds: vsched.Bounds{Preempt: 2, Tick: 1, Data: -1, Total: 2}},
+			{Name: "burst3-pass-in-flight-across-period-end", Threads: 3, Reqs: 1, T: 1, Prologue: "hfp-in-period", Bounds: vsched.Bounds{Preempt: 2, Tick: 2, Data: -1, Total: 4}},
 			{Name: "burst3-record-only-in-store", Threads: 3, Reqs: 1, T: 5, Prologue: "store-fresh-record", Bounds: vsched.Bounds{Preempt: 2, Tick: 0, Data: -1, Total: 2}},
 			{Name: "burst3-expired-record-in-lazy-store", Threads: 3, Reqs: 1, T: 1, Prologue: "store-lazy-expired-record", Bounds: vsched.Bounds{Preempt: 2, Tick: 0, Data: -1, Total: 2}},
 		}
@@ -166,6 +184,7 @@ func init() {
 				{Name: "burst2x2-other", Threads: 2, Reqs: 2, Other: true, T: 1, Bounds: vsched.Bounds{Preempt: 3, Tick: 2, Data: -1, Total: 3}},
 				{Name: "burst3-expired-hit", Threads: 3, Reqs: 1, T: 1, Prologue: "expired-hit", Bounds: vsched.Bounds{Preempt: 3, Tick: 2, Data: -1, Total: 3}},
 				{Name: "burst3-expired-hfp", Threads: 3, Reqs: 1, T: 1, Prologue: "expired-hfp", Bounds: vsched.Bounds{Preempt: 3, Tick: 2, Data: -1, Total: 3}},
+				{Name: "burst3-pass-in-flight-across-period-end", Threads: 3, Reqs: 1, T: 1, Prologue: "hfp-in-period", Bounds: vsched.Bounds{Preempt: 3, Tick: 2, Data: -1, Total: 4}},
 				{Name: "burst5-cold", Threads: 5, Reqs: 1, T: 2, Bounds: vsched.Bounds{Preempt: 1, Tick: 1, Data: -1, Total: 2}},
 				{Name: "burst3-record-only-in-store", Threads: 3, Reqs: 1, T: 5, Prologue: "store-fresh-record", Bounds: vsched.Bounds{Preempt: 3, Tick: 1, Data: -1, Total: 3}},
 				{Name: "burst3-expired-record-in-lazy-store", Threads: 3, Reqs: 1, T: 1, Prologue: "store-lazy-expired-record", Bounds: vsched.Bounds{Preempt: 3, Tick: 1, Data: -1, Total: 3}},
